@@ -306,3 +306,90 @@ def checks(tier):
                       "deletes it; atomic on/off; real repositories on /dev/shm",
                outside="network transports; hooks; more than one concurrent change", tiers=q),
     ]
+
+
+# ---------------------------------------------------------------------------------------------
+# (c) two receive-pack sessions racing on one ref, interleaved at file-system-call granularity
+_b06c = checks
+
+
+def _session(d, old, new, ref=R1):
+    """one complete receive-pack session (own Repo object) with a single command and an empty pack; returns True iff the
+    report says ok for the ref"""
+    repo = Repo(d)
+    try:
+        l = (SHA[old] if old else ZERO) + b" " + (SHA[new] if new else ZERO) + b" " + ref + b"\0report-status delete-refs"
+        req = pkt_line(l) + pkt_line(None)
+        if new is not None:
+            f = BytesIO()
+            write_pack_objects(f.write, [], object_format=DEFAULT_OBJECT_FORMAT)
+            req += f.getvalue()
+        out = []
+        proto = Protocol(BytesIO(req).read, out.append)
+        ReceivePackHandler(DictBackend({b"/": repo}), [b"/"], proto, stateless_rpc=True).handle()
+        proto._close = None
+        frames = []
+        PktLineParser(frames.append).parse(b"".join(out))
+        rsp = ReportStatusParser()
+        for fr in frames:
+            rsp.handle_packet(fr)
+        try:
+            st = dict(rsp.check())
+        except Exception:
+            return False
+        return ref in st and st[ref] is None
+    finally:
+        repo.close()
+
+
+def h_push_race(eng, first=0, kbase=0):
+    """two pushers name the same old value A for refs/heads/one (loose or packed); one moves it to B, the other moves it to C
+    or deletes it; one of them is preempted before any one of its file-system calls and the other runs its whole session
+    there: at most one of them is told ok, the ref ends up holding exactly the winner's value (or A if neither won)"""
+    from vf.interpose import Interposer
+    from vf.props.C08 import Sched
+    d = scratch("c06r")
+    repo = Repo.init_bare(d)
+    try:
+        for k in "ABC":
+            for o in OBJ[k]:
+                repo.object_store.add_object(o)
+        repo.refs[R1] = SHA["A"]
+        if eng.bool("packed"):
+            repo.refs.pack_refs(all=True)
+        repo.close()
+        new_b = ("C", None)[eng.choice("second_pusher", 2)]
+        k1 = kbase + eng.choice("preempt_first_at", 50)
+        s = Sched(first, k1, None)
+        with Interposer(d, s.hook, wrap_reads=True):
+            res = s.run([lambda: _session(d, "A", "B"), lambda: _session(d, "A", new_b)])
+        eng.assume(s.count.get(first, 0) > k1)
+        ok = [r[0] == "ok" and bool(r[1]) for r in res]
+        repo = Repo(d)
+        cur = _cur(repo, R1)
+        tag = f"[second pusher {'deletes' if new_b is None else 'sets C'}; first preempted={'AB'[first]} at call {k1}; results {res}]"
+        eng.prove(not (ok[0] and ok[1]), f"{tag} both racing pushers were told ok although both named the same old value")
+        if ok[0]:
+            eng.prove(cur == SHA["B"], f"{tag} pusher A was told ok but the ref holds {cur and cur[:6]}")
+        elif ok[1]:
+            eng.prove(cur == (SHA[new_b] if new_b else None), f"{tag} pusher B was told ok but the ref holds {cur and cur[:6]}")
+        else:
+            eng.prove(cur == SHA["A"], f"{tag} nobody was told ok but the ref moved to {cur and cur[:6]}")
+        eng.prove(cur is None or cur in repo.object_store, "the ref names an object the server has")
+    finally:
+        repo.close()
+        shutil.rmtree(d, ignore_errors=True)
+
+
+def checks(tier):
+    q = ("quick", "thorough")
+    return _b06c(tier) + [
+        KCheck("C06c.push_race", h_push_race, parts=[{"first": f, "kbase": b} for f in (0, 1) for b in range(0, 300, 50)],
+               encoded=["dulwich.server.ReceivePackHandler.handle/_apply_pack/_report_status",
+                        "dulwich.refs.DiskRefsContainer.set_if_equals/remove_if_equals", "dulwich.file.GitFile"],
+               bounds="two receive-pack sessions (separate Repo objects, pkt-line in memory, report-status + delete-refs) naming the "
+                      "same old value of one ref (loose or packed): update vs. update and update vs. delete; either pusher "
+                      "preempted once before any of its first 300 file-system calls (reads included; a session makes about 290) while the other runs completely",
+               outside="2 or more preemptions (C08a takes the underlying compare-and-swap through 2); atomic multi-ref pushes in a race; "
+                       "three pushers", time_budget=2400, tiers=q),
+    ]
